@@ -139,7 +139,9 @@ Process(ev, i) ==
             ELSE LET t1 == IF t0.pc = "enlarge_test" THEN DoEnlargeTest(t0, A) ELSE t0 IN
                  [s |-> DoFinalResample(t1, A, <<"res">>), aux |-> [aux EXCEPT !.enl = TRUE], gaux |-> gaux,
                   v |-> adv.v \cup V(t1.pc = "fres", "conf_unexpected_resample")
-                            \cup V(ev.sum_ok, "ProbProportional")
+                            \* the final resampling is the move from the last temperature reached to One (a capped
+                            \* schedule may have stopped below One): drawn by the incremental weight of *that* move
+                            \cup V(ev.sum_ok /\ (~t1.store \/ <<Len(t1.hist.pops) - 1, t1.beta, One>> \in ToSet(ev.prov)), "ProbProportional")
                             \cup V(ev.size = A.nfinal /\ ev.n_src = t0.size, "NewBetaAndSize")]
     [] ev.t = "kinit" ->
          [s |-> s, aux |-> aux, gaux |-> gaux,
